@@ -12,11 +12,12 @@ echo "$T" | cut -c1-220
 mkdir -p /verif/seeded/$NAME
 cp "$SD/patch.diff" /verif/seeded/$NAME/
 cp "$SD"/*_test.go /verif/seeded/$NAME/ 2>/dev/null
-python3 - "$SD/meta.json" /verif/seeded/$NAME/meta.json <<PY
+VF=$(mktemp); TF=$(mktemp); printf '%s' "$V" > $VF; printf '%s' "$T" > $TF
+python3 - "$SD/meta.json" /verif/seeded/$NAME/meta.json $VF $TF <<'PY'
 import json,sys,re
 m=json.load(open(sys.argv[1]))
-v='''$V'''
-t='''$T'''
+v=open(sys.argv[3]).read()
+t=open(sys.argv[4]).read()
 m['verified_by_me']=[l.strip() for l in v.splitlines() if l.strip()]
 caught={}
 cur=None
@@ -31,3 +32,4 @@ m['what_i_ran']='tools/verify_seed.sh (scratch worktree: git apply, go build, to
 json.dump(m,open(sys.argv[2],'w'),indent=1)
 print('KEPT', sys.argv[2], 'caught by', {k:len(v) for k,v in caught.items()})
 PY
+rm -f $VF $TF
